@@ -230,6 +230,8 @@ func cmdVerify(args []string) {
 	verbose := fs.Bool("v", false, "verbose")
 	jobs := fs.Int("j", 16, "parallel solver jobs")
 	maxPaths := fs.Int("maxpaths", 20000, "path budget per function")
+	maxShow := fs.Int("show", 8, "max failed obligations listed per function (non-verbose)")
+	nshown := map[string]int{}
 	fs.Parse(args)
 	o := RunOpts{Repo: *repo, Verif: *verif, Props: parseProps(*props), Timeout: *timeout, Portfolio: strings.Split(*portfolio, ","), Jobs: *jobs, KeepDir: *keep, MaxPaths: *maxPaths}
 	if *fnre != "" {
@@ -263,6 +265,26 @@ func cmdVerify(args []string) {
 				mark := "ok  "
 				if !ok {
 					mark = "FAIL"
+				}
+				if !*verbose {
+					nshown[fr.Fn]++
+					if nshown[fr.Fn] > *maxShow {
+						continue
+					}
+					st = ob.Result.Status
+					src := ob.Src
+					if len(src) > 100 {
+						src = src[:100]
+					}
+					p := ob.Pos
+					if i := strings.LastIndex(p, "/"); i >= 0 {
+						p = p[i+1:]
+					}
+					fmt.Printf("   %s %-44s %-8s [%s] %s\n", mark, ob.Name, st, p, src)
+					if ob.Result.Part != "" {
+						fmt.Printf("        %s\n", truncate(ob.Result.Part, 300))
+					}
+					continue
 				}
 				fmt.Printf("   %s %-50s %s   [%s] %s\n", mark, ob.Name, st, ob.Pos, ob.Src)
 				if !ok && ob.Result != nil && ob.Result.Model != "" && *verbose {
